@@ -446,3 +446,4 @@ def replay(ctx, verdict):
 if 'search' not in globals():
     def search(ctx, verdict, problems):
         return winlib.search(ctx, verdict, problems)
+MANIFEST = dict(MANIFEST, level_note=MANIFEST.get('level_note', '') + ' Frames whose unauthenticated header bytes 12-13 were altered (accepted: known finding F3) are also driven through live sessions, in order on a stream of their own, for every bit and method: whatever they then mean, the process must not crash and the other stream goes on.')
